@@ -54,6 +54,7 @@ type caseLog struct {
 	mu        sync.Mutex
 	calls     map[string][]call // by token, in invocation order
 	destroyed map[string]int    // OnDestroy events of receive filters by token (stream cleaned up)
+	unseen    map[string]bool   // slow filter: the client's reset was not heard within 3 s
 }
 
 var (
@@ -62,7 +63,7 @@ var (
 )
 
 func registerCase(id string) *caseLog {
-	l := &caseLog{calls: map[string][]call{}, destroyed: map[string]int{}}
+	l := &caseLog{calls: map[string][]call{}, destroyed: map[string]int{}, unseen: map[string]bool{}}
 	logsMu.Lock()
 	logs[id] = l
 	logsMu.Unlock()
@@ -100,6 +101,21 @@ func (l *caseLog) isDestroyed(tok string) bool {
 	l.mu.Lock()
 	defer l.mu.Unlock()
 	return l.destroyed[tok] > 0
+}
+
+func (l *caseLog) markUnseen(tok string) {
+	if l == nil {
+		return
+	}
+	l.mu.Lock()
+	l.unseen[tok] = true
+	l.mu.Unlock()
+}
+
+func (l *caseLog) isUnseen(tok string) bool {
+	l.mu.Lock()
+	defer l.mu.Unlock()
+	return l.unseen[tok]
 }
 
 func (l *caseLog) markDestroyed(tok string) {
@@ -230,6 +246,17 @@ func answerBody(idx int, verdict, tok string) string {
 	return "ans:" + markerOf(idx, verdict) + ":" + tok
 }
 
+type closeNotifier struct{ ch chan struct{} }
+
+func (c closeNotifier) OnEvent(e api.ConnectionEvent) {
+	if e.IsClose() {
+		select {
+		case c.ch <- struct{}{}:
+		default:
+		}
+	}
+}
+
 type recvFilter struct {
 	cfg     *filterCfg
 	lg      *caseLog
@@ -269,7 +296,17 @@ func (f *recvFilter) OnReceive(ctx context.Context, headers api.HeaderMap, buf b
 	case 'R':
 		return api.StreamFilterReChooseHost
 	case 'Z': // a slow filter (calls out, or injects a delay like faultinject) that then answers like 'H'
-		time.Sleep(30 * time.Millisecond)
+		// "slow" = until the client's reset has been delivered to the proxy: connection event listeners run in the
+		// order of their registration, the proxy's own was registered when the connection was accepted, so when this
+		// one hears of the close the proxy has already been told. (Not a sleep: on a loaded machine the proxy may
+		// learn of a reset tens of milliseconds after the client sent it.)
+		closed := make(chan struct{}, 1)
+		f.handler.Connection().AddConnectionEventListener(closeNotifier{closed})
+		select {
+		case <-closed:
+		case <-time.After(3 * time.Second):
+			f.lg.markUnseen(tok) // the close was not heard (listener added too late / lost): the case says nothing
+		}
 		headers.Set(answerHdr, markerOf(f.cfg.index, v))
 		f.handler.SendHijackReply(code, headers)
 		return api.StreamFilterStop
